@@ -82,7 +82,8 @@ ExistingCases == UNION {
        s \in Statuses, v \in (IF Family = "c04" THEN {"zero","prog","mixed"} ELSE IF Family = "all" THEN {"zero","prog","rp","ip","both"} ELSE {"zero","prog","rp","ip"}), st \in StimsFor(ro),
        ty \in IF Family = "c04" THEN {<<"vt">>, << >>, <<"vt","vtB">>} ELSE {<<"vt">>}}
    : ro \in (IF Family = "c04" THEN Roles \cap {"respPush","respPull"} ELSE Roles)}
-ValidExisting(c) == /\ (c.types # <<"vt">> => c.stim.val \in ValFew)
+ValidExisting(c) == /\ ((c.stim.kind \in {"Close","CloseErr"} /\ c.stim.openFail) => c.var = "zero")       \* closes with an unknowing transport: one record variant is enough
+                    /\ (c.types # <<"vt">> => c.stim.val \in ValFew)
                     /\ ((c.var = "mixed") <=> (c.types = <<"vt","vtB">>))
 
 (* stimuli with no channel: new requests under every validator outcome / registry / path *)
